@@ -138,7 +138,7 @@ theorem fin_suffix {compat} {k : Nat} {s0 : Stream} {mol : Mol} {rings : List Ri
       match __x with
         | (s', n) => pure ({ stream := s', mol := mol, rings := rings }, n) : Py (DState × Nat))
       = .ok r) : r.1.stream.Suffix s0 := by
-  obtain ⟨⟨s', n⟩, h1, h2⟩ := bind_ok h
+  obtain ⟨⟨s', n⟩, h1, h2⟩ := bind_okD h
   cases h2
   exact consumeRest_ok compat _ _ _ _ _ _ h1
 
